@@ -37,7 +37,7 @@ theorem nextSibling_of_loc_nil {f : Forest} {h : Nat} {l k r} (lc : Loc f.roots 
     (nd : f.allHandles.Nodup) : f.nextSibling h = none := by
   unfold nextSibling; rw [ctx?_of_loc_nil lc nd]
 
-theorem isRoot_plug_congr (fr : Frame) (rest : List Frame) (X Y : List HTree) (x : Nat) :
+theorem isRoot_plug_congr (fr : ZipFrame) (rest : List ZipFrame) (X Y : List HTree) (x : Nat) :
     (plug (fr :: rest) X).any (fun r => decide (r.handle = x)) =
     (plug (fr :: rest) Y).any (fun r => decide (r.handle = x)) := by
   simp only [plug_cons, List.any_append, List.any_cons, node_handle]
@@ -68,7 +68,7 @@ theorem hv_transfer_merge {x : Nat} {v w : Value} {l0 r0 : List HTree} {P C N : 
   refine List.mem_append.mpr (Or.inr ?_)
   rcases List.mem_append.mp h with h | h
   · rw [hv_eq] at h
-    rw [hv_eq, setValue_handle, setValue_kids]
+    rw [hv_eq, fi_setValue_handle, fi_setValue_kids]
     rcases List.mem_cons.mp h with h | h
     · exact absurd (Prod.mk.inj h).1 hP
     · exact List.mem_append.mpr (Or.inl (List.mem_cons_of_mem _ h))
@@ -206,8 +206,8 @@ theorem exists_sibsOut {f : Forest} (hi : f.Inv) {c : Nat} (hc : c ∈ f.allHand
       have hxf : x ∈ f.allHandles := by
         unfold allHandles at hx ⊢
         rw [lc.eq]
-        simp only [mem_handlesList_plug, fi_handlesList_append, handlesList_cons, List.mem_append,
-          handles_setValue, handlesList_nil, List.append_nil] at hx ⊢
+        simp only [mem_handlesList_plug, fi_handlesList_append, fi_handlesList_cons, List.mem_append,
+          handles_setValue, fi_handlesList_nil, List.append_nil] at hx ⊢
         rcases hx with hx | hx | hx | hx | hx
         · exact Or.inl hx
         · exact Or.inr (Or.inl (Or.inl hx))
@@ -224,8 +224,8 @@ theorem exists_sibsOut {f : Forest} (hi : f.Inv) {c : Nat} (hc : c ∈ f.allHand
       intro x hx
       unfold allHandles at hx ⊢
       rw [lc.eq]
-      simp only [mem_handlesList_plug, fi_handlesList_append, handlesList_cons, List.mem_append,
-        handles_setValue, handlesList_nil, List.append_nil] at hx ⊢
+      simp only [mem_handlesList_plug, fi_handlesList_append, fi_handlesList_cons, List.mem_append,
+        handles_setValue, fi_handlesList_nil, List.append_nil] at hx ⊢
       rcases hx with hx | hx | hx | hx | hx
       · exact Or.inl hx
       · exact Or.inr (Or.inl (Or.inl hx))
@@ -246,7 +246,7 @@ theorem exists_sibsOut {f : Forest} (hi : f.Inv) {c : Nat} (hc : c ∈ f.allHand
         refine ⟨?_, ?_⟩
         · intro e
           apply hf.left
-          simp only [fi_handlesList_append, handlesList_cons, handles_setValue, handlesList_nil,
+          simp only [fi_handlesList_append, fi_handlesList_cons, handles_setValue, fi_handlesList_nil,
             List.append_nil, List.mem_append]
           exact Or.inr (e ▸ fi_handle_mem_handles P)
         · intro fr' hfr' e
@@ -263,8 +263,8 @@ theorem exists_sibsOut {f : Forest} (hi : f.Inv) {c : Nat} (hc : c ∈ f.allHand
             · exact Or.inr (Or.inr (Or.inl (ih h1)))
       · intro hmem
         unfold allHandles at hmem
-        simp only [mem_handlesList_plug, fi_handlesList_append, handlesList_cons, List.mem_append,
-          handles_setValue, handlesList_nil, List.append_nil] at hmem
+        simp only [mem_handlesList_plug, fi_handlesList_append, fi_handlesList_cons, List.mem_append,
+          handles_setValue, fi_handlesList_nil, List.append_nil] at hmem
         have hfN := lcN.fresh nd
         rcases hmem with hx | hx | hx | hx | hx
         · exact hfN.path hx
